@@ -638,6 +638,14 @@ def emit_lean(data: Dict[str, Any], name: str = "jsonTable", namespace: str = "B
     out.append("/-- exception kinds caught at the object boundary in failsafe mode -/")
     out.append("def objectHookCatch : List String := [" + ", ".join(lstr(c) for c in data["catch"]) + "]")
     out.append("")
+    out.append("/-- SPEC side (py/vf/meta.py DETACHABLE): per class the members that hold detachable parts -/")
+    spec = []
+    for ct in data["table"]:
+        det = set(meta.DETACHABLE.get(ct["cls"], []))
+        ms = [r["member"] for r in ct["rows"] if r["attr"] in det]
+        spec.append(f"  ({lstr(ct['cls'])}, [" + ", ".join(lstr(m) for m in ms) + "])")
+    out.append("def specDetachable : List (String × List String) := [\n" + ",\n".join(spec) + "]")
+    out.append("")
     out.append("/-- source constructs the translator did not recognise (must be empty) -/")
     out.append("def unrecognised : List String := [" + ", ".join(lstr(c) for c in data["unrecognised"]) + "]")
     out.append(f"end {namespace}")
